@@ -7,7 +7,11 @@
                           CallContext (h := size at entry; cleanup to h with f's error; on a Go panic —
                           context termination or threadClose — the stack is truncated to h WITHOUT calling
                           the handlers), Thread.end (cleanup to 0 with the thread's error), Thread.Close
-                          (threadClose exception sent to the suspended thread)
+                          (threadClose exception sent to the suspended thread).
+                          Thread.end as of /repo 8db1ed8: on a ContextTerminationError (quota kill) the
+                          pending handlers are discarded (truncate(0)); every other path (return, error,
+                          threadClose) runs cleanupCloseStack(nil, 0, err) — the skeleton language has no
+                          quotas, so only the latter paths are modelled here (the kill path is C05's)
      runtime/luacont.go   NewLuaCont (closeStackBase := size at creation), OpClStack push (a true value
                           without __close is an error) and truncate (to closeStackBase + h), OpCall with
                           isTail (cleanup to closeStackBase before leaving the continuation)
@@ -19,7 +23,8 @@ Import ListNotations.
 
 Record vst := mkV { stack : list tbcv;      (* the thread's close stack, top first *)
                     vds : list bool;
-                    vyc : option nat }.
+                    vyc : option nat;
+                    vlast : bool }.
 
 Inductive vout :=
 | VReturn                 (* the continuation returned to its caller *)
@@ -63,7 +68,7 @@ Fixpoint after_label (l : nat) (c : code) : option code :=
 Definition vnext (s : vst) : bool * vst :=
   match vds s with
   | [] => (false, s)
-  | d :: r => (d, mkV (stack s) r (vyc s))
+  | d :: r => (d, mkV (stack s) r (vyc s) (vlast s))
   end.
 
 Definition vbind (r : res vtriple) (k : list event -> vout -> vst -> res vtriple) : res vtriple :=
@@ -78,7 +83,7 @@ Definition vprepend (ev : list event) (r : res vtriple) : res vtriple :=
   | Done (ev', o, s) => Done (ev ++ ev', o, s)
   end.
 
-Definition set_stack (s : vst) (stk : list tbcv) : vst := mkV stk (vds s) (vyc s).
+Definition set_stack (s : vst) (stk : list tbcv) : vst := mkV stk (vds s) (vyc s) (vlast s).
 
 (* exec fuel whole rest base s: run the continuation of a function whose code
    is [whole], currently at [rest], with closeStackBase = base. *)
@@ -111,6 +116,16 @@ Fixpoint exec (fuel : nat) (whole rest : code) (base : nat) (s : vst) {struct fu
           | None => Done ([], VPanic, s1)
           end
         else exec f whole k base s1
+      | ICond =>
+        let (d, s1) := vnext s in
+        exec f whole k base (mkV (stack s1) (vds s1) (vyc s1) d)
+      | IJumpLast l _ =>
+        if vlast s then
+          match after_label l whole with
+          | Some r => exec f whole r base s
+          | None => Done ([], VPanic, s)
+          end
+        else exec f whole k base s
       | ILabel _ => exec f whole k base s
       | ICall c =>
         vbind (exec f c c (length (stack s)) s) (fun ev o s1 =>
@@ -144,18 +159,18 @@ Fixpoint exec (fuel : nat) (whole rest : code) (base : nat) (s : vst) {struct fu
           | VPanic => Done (ev, VPanic, s1)
           end)
       | ICoro c j =>
-        vbind (exec f c c 0 (mkV [] (vds s) j)) (fun ev o s1 =>
+        vbind (exec f c c 0 (mkV [] (vds s) j (vlast s))) (fun ev o s1 =>
           match o with
           | VPanic => Done (ev, VPanic, s1)
           | _ =>
             let '(ev2, _, e) :=
               cleanup (stack s1) 0 (match o with VError x => Some x | _ => None end) in
-            vprepend (ev ++ ev2 ++ [EvCo e]) (exec f whole k base (mkV (stack s) (vds s1) (vyc s)))
+            vprepend (ev ++ ev2 ++ [EvCo e]) (exec f whole k base (mkV (stack s) (vds s1) (vyc s) (vlast s1)))
           end)
       | IYield =>
         match vyc s with
         | Some 0 => Done ([], VClosed, s)
-        | Some (S j) => exec f whole k base (mkV (stack s) (vds s) (Some j))
+        | Some (S j) => exec f whole k base (mkV (stack s) (vds s) (Some j) (vlast s))
         | None => exec f whole k base s
         end
       | IOpen id => vprepend [EvOpen id] (exec f whole k base s)
@@ -177,7 +192,7 @@ Definition vout_of (o : outcome) : vout :=
 (* The whole program (Compile.compile: [IPcall c]) run as the main chunk of the
    harness: the main chunk returns after the pcall. *)
 Definition run_vm (fuel : nat) (c : code) (d : list bool) : res (list event * vout) :=
-  match exec fuel (c ++ [IRet]) (c ++ [IRet]) 0 (mkV [] d None) with
+  match exec fuel (c ++ [IRet]) (c ++ [IRet]) 0 (mkV [] d None false) with
   | Done (ev, o, _) => Done (ev, o)
   | OutOfFuel => OutOfFuel
   end.
